@@ -381,3 +381,34 @@ def rule_witnesses(fx, col):
             ok = exp in errs
             col.add('WITNESS', name, ok, 'must be rejected with %s (got %s)' % (exp, sorted(errs) or 'it compiles'))
     col.floor('WITNESS', 'witness programs', n, 16)
+
+
+def rule_strategy_sync(fx, col):
+    """C19 for a strategy added later: a strategy whose `load` neither goes through the debt protocol (LocalNode::with) nor takes a
+    lock hands out the pointer unsynchronised; a container with such a strategy must not be Sync, so the strategy type itself
+    has to carry a !Sync marker (a unit struct is Sync)."""
+    import re
+    from . import util as U
+    lib = fx.lib
+    n = 0
+    for b in lib.bodies:
+        if b.name != 'load' or not (b.j.get('impl_trait') or '').endswith('sealed::InnerStrategy'):
+            continue
+        n += 1
+        names = {U.callee_name(t) for _, t in b.calls(include_cleanup=False)}
+        protected = 'with' in names or 'read' in names or 'lock' in names or 'attempt' in names or 'fallback' in names
+        if not protected:
+            for _, _, cb in U.closures_built(lib, b):
+                names |= {U.callee_name(t) for _, t in cb.calls(include_cleanup=False)}
+            protected = bool(names & {'with', 'read', 'lock', 'attempt', 'fallback'})
+        adt = lib.adts.get(b.j.get('impl_self_adt') or '')
+        st = b.j.get('impl_self_ty', '')
+        if protected:
+            col.ok('STRATEGY-SYNC', '%s|load synchronises' % st, 'load goes through the debt protocol or a lock (%s)' % sorted(names & {'with', 'read', 'lock', 'attempt', 'fallback'}))
+            continue
+        fields = [f['ty'] for v in (adt['variants'] if adt else []) for f in v['fields']]
+        not_sync = any(re.search(r'Cell<|\*const |\*mut |Rc<|PhantomData<\*', ty) for ty in fields)
+        col.add('STRATEGY-SYNC', '%s|unsynchronised strategy is not Sync' % st, not_sync,
+                'load neither uses the debt protocol nor a lock; the strategy type has fields %s: %s' % (fields, 'a !Sync marker' if not_sync else 'nothing makes it !Sync, so ArcSwapAny<Arc<_>, %s> is Sync' % st), b.loc(0))
+    col.floor('STRATEGY-SYNC', 'InnerStrategy::load impls', n, 1)
+
